@@ -119,6 +119,17 @@ def over (f : List Rat → Rat) (s : Src) (ranges : List (Int × Int)) (wh : Opt
     | _, _ => .error .index
   | _, _ => .error .value
 
+/-- What one turn of the loop of `downsampled_over` hands to `reduce`, with the timestamp it will stamp. -/
+def overStepW (s : Src) (center : Bool) (r : Int × Int) : Option (Int × List Rat) :=
+  match (s.getitem r.1 r.2).samples with
+  | [] => none
+  | x :: xs =>
+    some (if center then (x.1 + (((x :: xs).getLast?).getD x).1) / 2 else r.1, (x :: xs).map (·.2))
+
+/-- The arrays `downsampled_over` hands to `reduce` (ranges inside the span, empty ones skipped). -/
+def overWindows (s : Src) (st sp : Int) (center : Bool) (ranges : List (Int × Int)) : List (Int × List Rat) :=
+  (ranges.filter fun r => decide (r.1 ≥ st) && decide (r.2 ≤ sp)).filterMap (overStepW s center)
+
 /-! ### `downsampled_to` -/
 
 inductive Method where
@@ -499,6 +510,8 @@ def handleWin (isTo : Bool) (rest : List String) : Option String :=
   `c04.like <src> <reduce> <refsrc>`          values of empty windows are printed as `E`
   `c04.likepw <src> <reduce> <refsrc>`        the same with the proposed repair of the start index (F9)
   `c04.arith <op> <srcA> <srcB>`
+  `c04.overwins <src> <where> [a,b;…]`        the arrays `downsampled_over` hands to `reduce`, with their timestamps
+  `c04.bywins <src> <k>`                     the rows `downsampled_by` hands to `reduce(axis=1)`
   `c04.byby <src> <reduce> <k1> <k2>`         `downsampled_by(k1)` then `downsampled_by(k2)`
   `c04.likewins <src> <refsrc>`              the windows handed to `reduce` by `downsampled_like` + isolated-growth flag
   `c04.getitem <src> <a> <b>`                `self[a:b]` as used inside the downsampling loops
@@ -573,6 +586,27 @@ def handle : List String → Option String
         | .ok c => some ("ok " ++ toString c.dt ++ " " ++ showSamples c.samples)
         | .error e => some (showErr e)
     | _ => none
+  | "c04.overwins" :: rest => do
+    let (s, rest) ← mkSrc? rest
+    match rest with
+    | [w, rg] =>
+      let rows ← intListList? rg
+      let ranges ← rows.mapM pair?
+      match over (fun _ => 0) s ranges (where? w), where? w, s.start?, s.stop? with
+      | .error e, _, _, _ => some (showErr e)
+      | .ok _, some center, some st, some sp =>
+        some ("ok [" ++ ";".intercalate ((overWindows s st sp center ranges).map fun w =>
+          toString w.1 ++ "|" ++ ",".intercalate (w.2.map showRat)) ++ "]")
+      | _, _, _, _ => none
+    | _ => none
+  | "c04.bywins" :: rest => do
+    let (s, rest) ← mkSrc? rest
+    match rest, s with
+    | [k], .cont c =>
+      let k ← nat? k
+      if k = 0 then some (showErr .zeroDiv) else some ("ok " ++ showListList showRat (blocks k c.data))
+    | [_], .ts _ => some (showErr .notImpl)
+    | _, _ => none
   | "c04.like" :: rest => handleLike false rest
   | "c04.likepw" :: rest => handleLike true rest
   | "c04.arith" :: o :: rest => do
